@@ -203,9 +203,9 @@ pub fn run_shard(prop: &str, seed: u64, shard: u64, w: &Work) -> Report {
     let values = seg_values();
     for t in 0..w.tables {
         let mut rng = Rng::derive(seed, "router-table", shard, t as u64);
-        let versioned = rng.chance(2, 3);
+        let versioned = prop == "C05" || rng.chance(2, 3);
         let cfg = TableCfg {
-            allow_shadow: w.shadow_class && rng.chance(1, 8),
+            allow_shadow: w.shadow_class && rng.chance(1, if prop == "C05" { 3 } else { 8 }),
             versioned,
             max_depth: 1 + rng.usize(5),
             wildcards: rng.chance(2, 3),
@@ -216,6 +216,9 @@ pub fn run_shard(prop: &str, seed: u64, shard: u64, w: &Work) -> Report {
             continue;
         }
         let versioned = table.iter().any(|e| !e.range.is_all());
+        if prop == "C05" && !versioned {
+            continue;
+        }
         // several registration orders
         let mut routers = vec![];
         let mut refused = false;
@@ -337,10 +340,18 @@ pub fn run_shard(prop: &str, seed: u64, shard: u64, w: &Work) -> Report {
             // W1 (DESIGN.md §7): requests that land exactly on a node having both
             // its own handlers and a wildcard child are keyed separately
             let tag = |sig: &str| -> String {
-                if shadowed {
+                let s = if shadowed {
                     format!("{}:exact-route-beside-wildcard-child", &sig[..3])
                 } else {
                     sig.to_string()
+                };
+                if prop == "C05" {
+                    // the C05 run only has versioned tables and versioned requests: whatever
+                    // goes wrong, the request was not handled by the endpoint whose range
+                    // contains its version
+                    format!("C05:version-routing:{}", &s[4..])
+                } else {
+                    s
                 }
             };
             match &expect {
@@ -449,8 +460,120 @@ pub fn run_shard(prop: &str, seed: u64, shard: u64, w: &Work) -> Report {
             }
         }
         rep.count("tables", 1);
+        if prop == "C01" && versioned {
+            registration_order_probe(&mut rep, &mut rng, &table, &u, seed, shard, t);
+        }
     }
     rep
+}
+
+/// C01 "never on the order of registration", for the accept/refuse outcome itself:
+/// sets that contain (or narrowly avoid) a version overlap between endpoints which
+/// share a request path — two or three generations at one template plus a
+/// wildcard child whose range overlaps some, all or none of them — are registered
+/// in many orders.  Judged on the real outcomes alone: every order must agree on
+/// whether the set as a whole is accepted.
+pub fn registration_order_probe(rep: &mut Report, rng: &mut Rng, table: &[MEndpoint], u: &[MVer], seed: u64, shard: u64, t: usize) {
+    let bases: Vec<&MEndpoint> = table
+        .iter()
+        .filter(|e| !e.segs.iter().any(|s| matches!(s, TSeg::Wild(_))) && !e.var_names().iter().any(|n| n == "w"))
+        .collect();
+    if bases.is_empty() || u.len() < 4 {
+        return;
+    }
+    let base = (*rng.pick(&bases)).clone();
+    // three increasing cut points
+    let mut cuts: Vec<MVer> = vec![];
+    for _ in 0..40 {
+        let v = rng.pick(u).clone();
+        if !cuts.iter().any(|c| !c.lt(&v) && !v.lt(c)) {
+            cuts.push(v);
+        }
+        if cuts.len() == 3 {
+            break;
+        }
+    }
+    if cuts.len() < 3 {
+        return;
+    }
+    cuts.sort_by(|a, b| if a.lt(b) { std::cmp::Ordering::Less } else if b.lt(a) { std::cmp::Ordering::Greater } else { std::cmp::Ordering::Equal });
+    let (a, b, c) = (cuts[0].clone(), cuts[1].clone(), cuts[2].clone());
+    // generations at the template itself (pairwise disjoint)
+    let gens: Vec<MRange> = match rng.below(3) {
+        0 => vec![MRange::Until(b.clone()), MRange::From(b.clone())],
+        1 => vec![MRange::Until(a.clone()), MRange::FromUntil(a.clone(), b.clone()), MRange::From(c.clone())],
+        _ => vec![MRange::FromUntil(a.clone(), b.clone()), MRange::FromUntil(b.clone(), c.clone())],
+    };
+    // the other route sharing request paths with them: the wildcard child (its empty
+    // match) or one more generation at the template itself
+    let other_range = match rng.below(6) {
+        0 => MRange::From(b.clone()),
+        1 => MRange::Until(b.clone()),
+        2 => MRange::FromUntil(b.clone(), c.clone()),
+        3 => MRange::From(c.clone()),
+        4 => MRange::Until(a.clone()),
+        _ => MRange::All,
+    };
+    let as_wildcard = rng.chance(3, 4);
+    let mut set: Vec<MEndpoint> = vec![];
+    for (i, r) in gens.iter().enumerate() {
+        let mut e = base.clone();
+        e.opid = format!("gen{i}");
+        e.range = r.clone();
+        set.push(e);
+    }
+    let mut o = base.clone();
+    o.opid = "other".into();
+    o.range = other_range;
+    if as_wildcard {
+        o.segs.push(TSeg::Wild("w".into()));
+        o.trailing_slash = false;
+    }
+    if !template_supported(&o) {
+        return;
+    }
+    set.push(o);
+    // bystanders from the table that the model sees no conflict with
+    for e in table {
+        if set.len() >= 7 {
+            break;
+        }
+        if e.opid != base.opid && template_supported(e) && structural_conflict(&set, e).is_none() && !wildcard_shadow(&set, e) {
+            set.push(e.clone());
+        }
+    }
+    let mut outcomes: Vec<(Vec<usize>, Result<(), (usize, String)>)> = vec![];
+    let n = set.len();
+    for p in 0..8 {
+        let mut order: Vec<usize> = (0..n).collect();
+        match p {
+            0 => {}
+            1 => order.reverse(),
+            _ => rng.shuffle(&mut order),
+        }
+        let r = build_api(&set, &order).map(|_| ());
+        outcomes.push((order, r));
+    }
+    let accepted = outcomes.iter().filter(|(_, r)| r.is_ok()).count();
+    rep.eval(format!(
+        "registration-order|gens{}|{}|{}",
+        gens.len(),
+        if as_wildcard { "wildcard-child" } else { "same-template" },
+        if accepted == 0 { "refused-in-every-order" } else if accepted == outcomes.len() { "accepted-in-every-order" } else { "MIXED" }
+    ));
+    rep.count("registration_order_sets", 1);
+    rep.count(if accepted == 0 { "registration_order_sets_refused_in_every_order" } else { "registration_order_sets_accepted_in_some_order" }, 1);
+    if accepted != 0 && accepted != outcomes.len() {
+        let acc = outcomes.iter().find(|(_, r)| r.is_ok()).unwrap();
+        let refd = outcomes.iter().find(|(_, r)| r.is_err()).unwrap();
+        rep.violate(
+            "C01:registration-outcome-depends-on-order",
+            json!({"seed": seed, "shard": shard, "table_index": t, "set": table_json(&set),
+                   "accepted_in_order": acc.0, "refused_in_order": refd.0,
+                   "refusal": refd.1.as_ref().err().map(|(i, m)| json!({"endpoint_index": i, "message": m})),
+                   "orders_accepting": accepted, "orders_tried": outcomes.len()}),
+        );
+    }
 }
 
 /// C03 metamorphic engine: many spellings of one segment list must all give
